@@ -210,6 +210,10 @@ type sweepResult struct {
 var sweepCache = map[string]sweepResult{}
 
 func sweepReplay(tmpl, testName, rel, cfg, dir string) (bool, string) {
+	return sweepReplayFlags(tmpl, testName, rel, cfg, dir, nil)
+}
+
+func sweepReplayFlags(tmpl, testName, rel, cfg, dir string, extra []string) (bool, string) {
 	ck := tmpl + "|" + cfg
 	if r, ok := sweepCache[ck]; ok {
 		os.WriteFile(filepath.Join(dir, "output.txt"), []byte(r.out), 0o644)
@@ -237,10 +241,15 @@ func sweepReplay(tmpl, testName, rel, cfg, dir string) (bool, string) {
 	os.WriteFile(ovPath, ovb, 0o644)
 	bc := buildConfigs[cfg]
 	args := []string{"test", "-vet=off", "-count=1", "-run", "^" + testName + "$", "-v", "-overlay", ovPath}
+	args = append(args, extra...)
 	if bc.Tags != "" {
 		args = append(args, "-tags", bc.Tags)
 	}
-	args = append(args, "./"+rel)
+	if rel == "" {
+		args = append(args, ".")
+	} else {
+		args = append(args, "./"+rel)
+	}
 	sh := fmt.Sprintf("#!/bin/sh\n# differential sweep of the real API against the math/big reference predicate\ncd /repo && GOFLAGS=-mod=mod GOPROXY=off GOSUMDB=off GOTOOLCHAIN=local %s go %s\n", goarchEnv(bc), strings.Join(args, " "))
 	os.WriteFile(filepath.Join(dir, "run.sh"), []byte(sh), 0o755)
 	out, _ := runGo(bc, args, 15*time.Minute)
@@ -271,7 +280,31 @@ func batchSweepReplayer(prop string, ob *Obligation, cfg string, dir string) (bo
 	return ok, desc, firstLines(out, 3)
 }
 
+func x25519SweepReplayer(prop string, ob *Obligation, cfg string, dir string) (bool, string, string) {
+	ok, out := sweepReplay("x25519_sweep_test.go.tmpl", "TestVerifX25519Sweep", "extra/x25519", cfg, dir)
+	desc := fmt.Sprintf("%s: solver found an interpretation violating \"%s\" (%s); confirmed on the real API: %s", ob.Harness, ob.Msg, ob.Pos, firstLines(out, 5))
+	return ok, desc, firstLines(out, 3)
+}
+
+func raceSweepReplayer(prop string, ob *Obligation, cfg string, dir string) (bool, string, string) {
+	ok, out := sweepReplayFlags("race_sweep_test.go.tmpl", "TestVerifRaceSweep", "", cfg, dir, []string{"-race"})
+	if !ok && strings.Contains(out, "DATA RACE") {
+		ok = true
+		if i := strings.Index(out, "WARNING: DATA RACE"); i >= 0 {
+			out = "REPLAY-CONFIRMED: data race reported by the race detector: " + out[i:]
+		}
+	}
+	desc := fmt.Sprintf("%s: %s (%s); confirmed by concurrent calls on shared inputs under the race detector: %s", ob.Harness, ob.Msg, ob.Pos, firstLines(out, 6))
+	return ok, desc, firstLines(out, 3)
+}
+
 func init() {
+	for _, p := range []string{"vh_C11_", "vh_C12_", "vh_C13_X25519"} {
+		customReplayers[p] = x25519SweepReplayer
+	}
+	for _, p := range []string{"vh_C15_"} {
+		customReplayers[p] = raceSweepReplayer
+	}
 	for _, p := range []string{"vh_C06_", "vh_C04_batch", "vh_C05_batch", "vh_C07_batch", "vh_C13_batch", "vh_C03_batch", "vh_C09_batch"} {
 		customReplayers[p] = batchSweepReplayer
 	}
